@@ -48,6 +48,7 @@ func configs(thorough bool) (pdiff.Config, []pdiff.Config, []pdiff.Config) {
 		}
 
 		all = append(all, pdiff.Config{Reg: 1}, pdiff.Config{Fold: 1}, pdiff.Config{Cache: 1})
+		all = append(all, pdiff.Config{Opt: 2, Reg: 1}, pdiff.Config{Opt: 2, Fold: 1}, pdiff.Config{Opt: 2, Cache: 1})
 
 		for opt := 0; opt <= 2; opt++ {
 			all = append(all, pdiff.Config{Opt: opt, Reg: 1, Fold: 1, Cache: 1})
@@ -95,7 +96,7 @@ func main() {
 
 	r.Rule(fmt.Sprintf("programs: every statement form (16 assignment/increment shapes, comparisons, constant expressions, loops, package constants, globals, closures, try/catch, collections, structs, strings, dynamic typing, control flow, scopes, aborting programs) over every numeric type and the listed initial values/constants%s; each program x %d configurations (optimizer 0-3 x registers/constfold/globalcache %s) x 3 type modes against the baseline (optimizer 0, all three off); plus every test block of tests/**.ego under %d configurations x 3 modes. distinct = (mode, program) that produces output or an error under the baseline, and (mode, corpus test block) stable in two baseline runs",
 		map[bool]string{false: "", true: " and every ordered pair of statement forms on one variable"}[r.Thorough()],
-		len(all), map[bool]string{false: "as single flips: each level with the switches off, each switch on alone, all on at levels 0-2, each switch off alone at level 2; symbol allocation 16 and 1024 at two corners", true: "in all 8 combinations x symbol allocation {default,16,1024}"}[r.Thorough()], len(corpus)))
+		len(all), map[bool]string{false: "as single flips: each level with the switches off, each switch on alone at levels 0 and 2, all on at levels 0-2, each switch off alone at level 2; symbol allocation 16 and 1024 at two corners", true: "in all 8 combinations x symbol allocation {default,16,1024}"}[r.Thorough()], len(corpus)))
 	r.Assume("the batch worker repeats ego's main() in one process per configuration; state leaking between its items can hide a difference but cannot raise one, because every disagreement is re-run in fresh `ego run` processes (twice per side) before it is reported",
 		"error messages are compared with source line numbers normalised",
 		"corpus test blocks whose text differs between two baseline runs (timings, ports, environment) are not compared; tests/{ai,server,sql,tables} are not run")
